@@ -388,6 +388,9 @@ def _read_returns_section(
                             annotation = return_item.slice.elements[index]
                         else:
                             annotation = return_item
+                elif annotation.is_generator:
+                    # A single item documents the value returned by the generator.
+                    annotation = annotation.slice.elements[2]
         else:
             annotation = parse_docstring_annotation(annotation, docstring, log_level=LogLevel.debug)
         returns.append(DocstringReturn(name=name or "", annotation=annotation, description=text))
